@@ -80,6 +80,19 @@ func c20Cases() []buildCase {
 			addMessage(f, message("Req", field("id", "string")))
 			addService(f, service("S", method("Get", ".t.v1.Req", ".t.v1.Resp")))
 		}),
+		one("mock: one message with a map of messages used by two response fields", func(f M) {
+			addEnum(f, M{"name": "Realm", "value": []any{M{"name": "REALM_DEFAULT", "number": 0}}})
+			addMessage(f, message("Tag", field("label", "string"), enumField("realm", ".t.v1.Realm")))
+			a := message("Address", field("street", "string"))
+			addMapField("t.v1", a, "tags", msgField("value", ".t.v1.Tag"), 2)
+			addMessage(f, a)
+			o := message("Other", field("k", "string"))
+			addMapField("t.v1", o, "tags", msgField("value", ".t.v1.Tag"), 2)
+			addMessage(f, o)
+			addMessage(f, message("Resp", msgField("billing", ".t.v1.Address"), msgField("shipping", ".t.v1.Address"), msgField("other", ".t.v1.Other"), enumField("realm", ".t.v1.Realm")))
+			addMessage(f, message("Req", field("id", "string")))
+			addService(f, service("S", method("Get", ".t.v1.Req", ".t.v1.Resp")))
+		}),
 	)
 	return cases
 }
